@@ -127,7 +127,7 @@ SPECS.update({
                  "reads are judged by the C13 oracle for that result's own input; values handed out in safe mode are re-checked after Close and later decodes; "
                  "the verif hook checks that every pool hand-out is empty (no field data, no closers); non-trivial when a recycled object has been handed "
                  "out in the process; distinct by (option combination, operation bigram)"),
-        "explanation": "GC is disabled inside the workload (explicit GC every 200 sequences) so that sync.Pool reuse really happens; evidence reports pool_handouts and recycled_handouts as seen by the hook",
+        "explanation": "GC is disabled inside the workload (explicit GC every 200 sequences) so that sync.Pool reuse really happens; evidence reports pool_handouts and recycled_handouts as seen by the hook; the wire type of declared tag 5 and of nested tag 2 changes from input to input of one decoder",
         "assumptions": TRUST_LAZY + ["hook lazyproto.VerifHandOut reports the real internal state at hand-out"],
     },
     "C15": {
@@ -216,7 +216,7 @@ SPECS.update({
         "rule": ("one case = one message value of one generated type (unit x flavour {gogo, gv1, gv2} x generator options) built through reflection on fresh structs; "
                  "Size(), Marshal() and MarshalTo(buffer of exactly Size() bytes, canary-framed, filled 0xAA then 0x55) must agree: equal lengths, every byte written, no overrun, "
                  "no truncated copy (encoder hook), no panic; non-trivial when >=1 field is populated; distinct by (package, message, field + boundary class | random field-number set)"),
-        "explanation": "values: the empty message, every field alone at each boundary value / container shape (lists 1,2,127,128; maps 0,1,3; empty and full nested messages in fields, lists, maps, oneofs), then seeded random combinations; required fields always set; violations are shrunk field by field and signed by (flavour, failure kind, populated field shapes); every boundary case and every 4th random case is evaluated a second time in the 'empty but allocated' Go representation (nil lists, maps and presence-less bytes rewritten to empty non-nil values by Go reflection: same contents); Google V2 values holding an empty element in a repeated message field get a third pass with that element as a nil pointer; (C04 only) that pass also turns empty message values of maps into nil pointers; fourth representation pass 'ext-in-unknown': the top-level extension fields of the value are not set through the API but sit encoded in the unknown fields, as after decoding by code that does not know them (Google V1 resolves them at first contact)",
+        "explanation": "values: the empty message, every field alone at each boundary value / container shape (lists 1,2,127,128; maps 0,1,3; empty and full nested messages in fields, lists, maps, oneofs), then seeded random combinations; required fields always set; violations are shrunk field by field and signed by (flavour, failure kind, populated field shapes); every boundary case and every 4th random case is evaluated a second time in the 'empty but allocated' Go representation (nil lists, maps and presence-less bytes rewritten to empty non-nil values by Go reflection: same contents); Google V2 values holding an empty element in a repeated message field get a third pass with that element as a nil pointer; (C04 only) that pass also turns empty message values of maps into nil pointers; fourth representation pass 'ext-in-unknown': the top-level extension fields of the value are not set through the API but sit encoded in the unknown fields, as after decoding by code that does not know them (Google V1 resolves them at first contact); fifth pass 'invalid-utf8': the strings of the message itself hold bytes that form no code point (C04 only; nested messages may belong to a runtime that validates UTF-8)",
         "assumptions": TRUST_GEN,
     },
     "C05": {
@@ -240,7 +240,7 @@ SPECS.update({
                  "opposite packing, packed runs split/mixed, duplicated singular scalars, split singular messages, several oneof members, map entries value-first / key omitted / value omitted / duplicate key, "
                  "explicit zero values, interleaved unknown fields; the generated Unmarshal (into a destination pre-populated with unrelated content and unknown bytes) must succeed and equal the dynamicpb parse "
                  "of the same bytes including the unknown fields either decoder retains (compared per field number), and equal a decode into a zero destination; non-trivial when the variant differs from the canonical encoding; distinct by (package, message, variant family, field/case)"),
-        "explanation": "differences are itemised per field path and signed by (flavour, variant family - or canonical when the canonical encoding of the shrunk value shows the same item -, item kind@field shape); families added by the seeded rounds: mapomitboth, splitmsg-empty (an empty occurrence around the complete one), splitmsg+unknown, oneof-aba (same member, other member, same member), oneof-aba-full (the earlier occurrence is a different, complete value of the member type), oneof-msgloser (an empty message member loses against the real scalar member), unknown-padded; self-recursive types also get a chain 120 levels deep; splitpacked-empty (zero-length packed runs before the elements and as the very last field of the message)",
+        "explanation": "differences are itemised per field path and signed by (flavour, variant family - or canonical when the canonical encoding of the shrunk value shows the same item -, item kind@field shape); families added by the seeded rounds: mapomitboth, splitmsg-empty (an empty occurrence around the complete one), splitmsg+unknown, oneof-aba (same member, other member, same member), oneof-aba-full (the earlier occurrence is a different, complete value of the member type), oneof-msgloser (an empty message member loses against the real scalar member), unknown-padded; self-recursive types also get a chain 120 levels deep; splitpacked-empty (zero-length packed runs before the elements and as the very last field of the message); repeated extensions of every packable kind (unit p2extrep)",
         "assumptions": TRUST_GEN + ["variants not listed in the statement (over-long varints of known fields, unknown fields inside map entries, groups) are not generated"],
     },
     "C07": {
@@ -250,7 +250,7 @@ SPECS.update({
         "rule": ("one case = a message encoding with 1-3 unknown fields per message level (all four wire types; numbers next to declared ones, >=2^26, near 2^29-1; payloads 0..70000 bytes; first/middle/last positions) "
                  "fed to the generated Unmarshal then Marshal: the reference parse of the output must hold byte-identical unknown fields per message (top level and nested) and Size() must equal the output length; "
                  "distinct by (package, message, variant family, field/case)"),
-        "explanation": "gv2 keeps unknown bytes in unknownFields, gogo/gv1 in XXX_unrecognized; both are compared through the reference parse, never through the struct; family unknown-padded writes the key, length prefix and varint value of unknown fields with redundant continuation bytes (valid wire data no encoder emits); differences inside runtime-owned google.protobuf.* sub-messages are not judged (protobuf-go re-encodes unknown keys itself); after the comparison the buffer returned by Marshal is inverted in place and Marshal is called again (the caller owns the returned bytes)",
+        "explanation": "gv2 keeps unknown bytes in unknownFields, gogo/gv1 in XXX_unrecognized; both are compared through the reference parse, never through the struct; family unknown-padded writes the key, length prefix and varint value of unknown fields with redundant continuation bytes (valid wire data no encoder emits); differences inside runtime-owned google.protobuf.* sub-messages are not judged (protobuf-go re-encodes unknown keys itself); after the comparison the buffer returned by Marshal is inverted in place and Marshal is called again (the caller owns the returned bytes); the numbers of unknown fields are also drawn from the extension numbers declared anywhere in the same file (for another message they are just numbers); unit p2extsamename has an extended and a plain message with equal short names",
         "assumptions": TRUST_GEN,
     },
 })
@@ -411,7 +411,7 @@ SPECS.update({
         "rule": ("one case = (schema unit, flavour, option tuple {single file, file per message} x {unsafe decode off, on} with the API version fixed by the flavour and specialname= set where the unit needs it): the real protoc-gen-fastmarshal "
                  "(built from the tree under test) is run twice on the identical CodeGeneratorRequest; it must not fail or crash, both responses must be byte-identical, every file name must be emitted once and be of the form <prefix>.pb.fm.go / "
                  "<prefix>_<lower(message)>.pb.fm.go, every file must parse (go/parser) and the package must compile together with the types produced by protoc-gen-gogo / protoc-gen-go; non-trivial when the response holds >=1 file; distinct by (unit, flavour, option tuple)"),
-        "explanation": "corpus: feature matrix for proto2 and proto3 (scalars, repeated, packed/unpacked, oneofs, maps by key and value kind, nested/recursive, field-number ranges, enums, well-known types, name collisions, equal short names, proto3 optional, required, extensions by family) plus seeded random units; fields named size/marshal_to are generated for the gogo-style runtimes only (protoc-gen-go cannot rename them: not in the supported set); units added by the seeded rounds: required fields only in nested / equally named messages, fields named like gogo-generated methods (six specialname options), extension and field defaults, extend blocks at depth 2-3, repeated extensions of bytes/sfixed64/enum/message kind, 3-way file-name collisions, required fields with defaults, imports of a generated package whose Go package name differs from its path (also generated together with the main file in one request, whose output must not change); boolean options are spelled in every form strconv.ParseBool accepts; one unit (p2reqtwofiles) is made from two proto2 files with required fields that are generated into ONE Go package and compiled together; units p?mapwkt (a type of another Go package used only as a map value) and p?enumonly (a file without messages); unit p?namesgogo also has special-named fields of message, repeated and map kind",
+        "explanation": "corpus: feature matrix for proto2 and proto3 (scalars, repeated, packed/unpacked, oneofs, maps by key and value kind, nested/recursive, field-number ranges, enums, well-known types, name collisions, equal short names, proto3 optional, required, extensions by family) plus seeded random units; fields named size/marshal_to are generated for the gogo-style runtimes only (protoc-gen-go cannot rename them: not in the supported set); units added by the seeded rounds: required fields only in nested / equally named messages, fields named like gogo-generated methods (six specialname options), extension and field defaults, extend blocks at depth 2-3, repeated extensions of bytes/sfixed64/enum/message kind, 3-way file-name collisions, required fields with defaults, imports of a generated package whose Go package name differs from its path (also generated together with the main file in one request, whose output must not change); boolean options are spelled in every form strconv.ParseBool accepts; one unit (p2reqtwofiles) is made from two proto2 files with required fields that are generated into ONE Go package and compiled together; units p?mapwkt (a type of another Go package used only as a map value) and p?enumonly (a file without messages); unit p?namesgogo also has special-named fields of message, repeated and map kind; units p?mapnullstruct (imported enum only as a map value), p2extwkt (extension of an imported type), p2extnameclash (fields named like generated locals)",
         "assumptions": TRUST_GEN[:1] + ["the harness plays protoc's role; descriptors validated by protodesc.NewFile"],
     },
 })
@@ -463,7 +463,7 @@ SPECS.update({
                  "MsgType equals the flavour's class; csproto.Equal across runtimes is false; unsupported values (nil, int, string, struct, pointer to non-message, typed nil, slice) give the documented error/zero result without panic; "
                  "distinct by (flavour, plain/fast, message, value class). concurrent: rounds in which G in {2,16,64} goroutines (GOMAXPROCS 1,2,16) call MsgType/Clone/MarshalText on values of types whose classification was just "
                  "evicted (verif hook), with seeded yields between cache miss and store, under -race; every goroutine must observe the correct class; evidence counts rounds with >=2 goroutines inside the miss window"),
-        "explanation": "every case ends with Size/Marshal after lock-step in-place mutations of the message that was sized and marshaled before (oracle: the owning runtime's Marshal of a fresh copy of the current contents); gogo well-known types are exercised as fields of plain gogo types; decoding (value bytes, nil, empty payload; Unmarshal and GrpcCodec) into a message that already holds other content must match the owning runtime's Unmarshal; plain types with an unset required field must be accepted/refused like the owning runtime does; Equal(generated, *dynamicpb.Message of the same descriptor) vs proto.Equal for Google V2; MarshalText on messages with unknown fields and on typed nil pointers; plain gogo types also in the 'plainsz' flavour (generated Size(), no Marshal/Unmarshal); for half of the types (chosen by the seed) the first value csproto sees in the process is a typed nil pointer (MsgType/Clone/Equal/Size/MarshalText), whose result is not judged; Equal(m, m) with the same object on both sides against the owning runtime's Equal(m, m); the Go package NAMES of the corpus do not mention the runtime, so the same schema gives equally named types for the three runtimes, and for a quarter of the types the twins of the other runtimes are classified first; the frame returned by GrpcCodec.Marshal must still hold its bytes after the codec marshaled the next message; unsupported values include *int and pointers to non-message structs, for which MsgType must say Unknown and Clone/Equal/MarshalText/ClearAllExtensions must not panic",
+        "explanation": "every case ends with Size/Marshal after lock-step in-place mutations of the message that was sized and marshaled before (oracle: the owning runtime's Marshal of a fresh copy of the current contents); gogo well-known types are exercised as fields of plain gogo types; decoding (value bytes, nil, empty payload; Unmarshal and GrpcCodec) into a message that already holds other content must match the owning runtime's Unmarshal; plain types with an unset required field must be accepted/refused like the owning runtime does; Equal(generated, *dynamicpb.Message of the same descriptor) vs proto.Equal for Google V2; MarshalText on messages with unknown fields and on typed nil pointers; plain gogo types also in the 'plainsz' flavour (generated Size(), no Marshal/Unmarshal); for half of the types (chosen by the seed) the first value csproto sees in the process is a typed nil pointer (MsgType/Clone/Equal/Size/MarshalText), whose result is not judged; Equal(m, m) with the same object on both sides against the owning runtime's Equal(m, m); the Go package NAMES of the corpus do not mention the runtime, so the same schema gives equally named types for the three runtimes, and for a quarter of the types the twins of the other runtimes are classified first; the frame returned by GrpcCodec.Marshal must still hold its bytes after the codec marshaled the next message; unsupported values include *int and pointers to non-message structs, for which MsgType must say Unknown and Clone/Equal/MarshalText/ClearAllExtensions must not panic; self-recursive types get a chain 130 levels deep",
         "assumptions": TRUST_GEN + ["the owning runtime's API is the stated oracle for Clone/Equal/Reset/MarshalText", "the race detector only sees races on executions that happened"],
     },
 })
@@ -494,7 +494,7 @@ SPECS.update({
                  "equal as a JSON tree to the owning runtime's own encoder given the same options (protojson / golang jsonpb / gogo jsonpb called directly), be restored to an equal message by JSONUnmarshaler and by the owning runtime's decoder; "
                  "indentation must be whole copies of the indent string; enum fields are numbers iff requested; zero-valued implicit fields appear iff requested; JSON with an injected unknown key is accepted iff allowed; JSON lacking a required key "
                  "is accepted iff allowPartial (Google V2, as documented); nil -> (nil, nil), unmarshal into nil -> error; distinct by (flavour, message, option tuple, value class)"),
-        "explanation": "values with NaN or -0.0 are excluded (JSON cannot carry the distinction); comparisons are on parsed JSON trees, never on raw text; well-known types are additionally run as root messages (Value of all six kinds incl. null, Struct, ListValue, Timestamp, Duration, wrappers, FieldMask, Empty) for the Google V2 and Gogo runtimes, restricted to values the owning runtime's own JSON codec round-trips; typed nil pointers of 13 well-known types in the nil clause; gogo messages with an enum field imported from another gogo package are built by Go reflection (the bridge cannot reflect on them) and compared with gogo's jsonpb; two values per type have their strings overwritten in field order from a curated list (trailing backslash first, then ', ' / ':  ' / quotes / braces); adapters are also given the OTHER side's options set to the opposite values (no documented effect there); self-recursive types get chains 101 and 140 levels deep; for half of the types the equally named twins generated for the other runtimes (same Go package name and type name, hence the same %T) go through both adapters first; a third of the option lists name every option twice, the opposite value first: the last one counts, also when it switches the feature off",
+        "explanation": "values with NaN or -0.0 are excluded (JSON cannot carry the distinction); comparisons are on parsed JSON trees, never on raw text; well-known types are additionally run as root messages (Value of all six kinds incl. null, Struct, ListValue, Timestamp, Duration, wrappers, FieldMask, Empty) for the Google V2 and Gogo runtimes, restricted to values the owning runtime's own JSON codec round-trips; typed nil pointers of 13 well-known types in the nil clause; gogo messages with an enum field imported from another gogo package are built by Go reflection (the bridge cannot reflect on them) and compared with gogo's jsonpb; two values per type have their strings overwritten in field order from a curated list (trailing backslash first, then ', ' / ':  ' / quotes / braces); adapters are also given the OTHER side's options set to the opposite values (no documented effect there); self-recursive types get chains 101 and 140 levels deep; for half of the types the equally named twins generated for the other runtimes (same Go package name and type name, hence the same %T) go through both adapters first; a third of the option lists name every option twice, the opposite value first: the last one counts, also when it switches the feature off; per type, four goroutines with four different option tuples marshal one message concurrently; each output must equal what the same call gives alone",
         "assumptions": TRUST_GEN + ["the owning runtime's JSON implementation is the stated oracle for option effects"],
     },
 })
@@ -509,7 +509,7 @@ SPECS.update({
                  "B = csproto.Marshal(m), the write cursor (verif accessor) must advance by exactly that; Decoder.DecodeNested must consume exactly the field (reference walker extent), yield an equal message / the payload, return a failing nested "
                  "marshaler's / unmarshaler's error unchanged without moving the cursor, and reject a declared length beyond the buffer without invoking the nested decoder (stub counts invocations); "
                  "distinct by (nested kind, position, payload size class)"),
-        "explanation": "failing stubs are injected for every 7th stub case (MarshalTo error, Marshal error, Unmarshal error); every field is also decoded into a value of an unsupported type (must be refused, also for an empty payload) and, for generated/plain types, into a destination that already holds another value; every nested field is also decoded from a hand-made encoding with an over-long (valid) length prefix followed by another field; every generated/plain case is repeated with a second object of the same contents that nobody has sized or marshaled before (expected bytes taken from its twin), so that no size cache of the owning runtime is warm when EncodeNested sees it",
+        "explanation": "failing stubs are injected for every 7th stub case (MarshalTo error, Marshal error, Unmarshal error); every field is also decoded into a value of an unsupported type (must be refused, also for an empty payload) and, for generated/plain types, into a destination that already holds another value; every nested field is also decoded from a hand-made encoding with an over-long (valid) length prefix followed by another field; every generated/plain case is repeated with a second object of the same contents that nobody has sized or marshaled before (expected bytes taken from its twin), so that no size cache of the owning runtime is warm when EncodeNested sees it; the over-declared length is tried in both decoder modes, with and without spare capacity behind the input slice, with panics recovered and the cursor checked",
         "assumptions": TRUST_GEN + TRUST_WIRE[2:],
     },
 })
@@ -539,7 +539,7 @@ SPECS.update({
                  "protodump: one case = one run of the real binary (built from the tree under test) on a seeded valid or malformed message with seeded -expand / -strings path sets, given through -file, redirected stdin or a pipe: stdout must equal "
                  "the reference rendering (one tag/wire-type header per field in wire order, value lines, recursion exactly into the requested paths), exit status 0 iff the input is well-formed, never a Go panic; "
                  "distinct by (decoration set, length class) resp. (input channel, number of expand/strings paths, valid?)"),
-        "explanation": "line breaks inside a digit pair are not generated (documented as line-by-line); expand paths are only requested for fields that hold nested messages; path elements are >=1; five families of texts with one physical line of 64-76 KiB (single-line dumps, long comment, long blank run, long line in the middle), each also with foreign text after the long line that must be rejected; protodump inputs include fully expanded chains of 8-40 nesting levels and bushy trees (two nested-message siblings per level, 4-7 levels) with random prefix-closed expand sets; the last eight results of ParseAnnotatedHex are kept and compared again after later calls (the caller owns what it was given)",
+        "explanation": "line breaks inside a digit pair are not generated (documented as line-by-line); expand paths are only requested for fields that hold nested messages; path elements are >=1; five families of texts with one physical line of 64-76 KiB (single-line dumps, long comment, long blank run, long line in the middle), each also with foreign text after the long line that must be rejected; protodump inputs include fully expanded chains of 8-40 nesting levels and bushy trees (two nested-message siblings per level, 4-7 levels) with random prefix-closed expand sets; the last eight results of ParseAnnotatedHex are kept and compared again after later calls (the caller owns what it was given); foreign characters include every control byte that is not white space and replace a hex digit half of the time (keeping the digit count even)",
         "assumptions": TRUST_WIRE[:2],
     },
 })
